@@ -49,7 +49,9 @@ Cands(op) ==
     LET C == Call(op) IN
     CASE op = "AddObject"    -> {[C EXCEPT !.o = o] : o \in NewObjs(doc)}
       [] op = "Replace"      -> {[C EXCEPT !.id = id, !.o = o] :
-                                   id \in (DOMAIN doc.objs \cup gh.issued) \ (aux.prot \cup Streams(doc)), o \in NewObjs(doc)}
+                                   \* an existing id, an issued one, or a number nobody uses yet (above max_id)
+                                   id \in ((DOMAIN doc.objs \cup gh.issued) \ (aux.prot \cup Streams(doc))) \cup {doc.max_id + 1},
+                                   o \in NewObjs(doc)}
       [] op = "DeleteObject" -> {[C EXCEPT !.id = id] : id \in DOMAIN doc.objs \ aux.prot}
       [] op = "RemoveAnnot"  -> {[C EXCEPT !.id = id] : id \in AnnotIds(doc)}
       [] op = "DeletePages"  -> {[C EXCEPT !.nums = nums] : nums \in NumSeqs}
